@@ -33,7 +33,8 @@ theorem dec_typed (ctx : Registry) (d : List (String × JVal)) (ty : String)
     (ht : d.lookup "_type" = some (.str ty)) (hne : ty ≠ "string_repr") (hnd : ty ≠ "dict") :
     dec ctx (.obj d) = (match ctx.lookup ty with
       | none => PyVal.dict ((decDataOf ctx d).getD [])
-      | some (m, kind) => PyVal.obj ty m kind ((decDataOf ctx d).getD [])) := by
+      | some (m, .auto) => PyVal.obj ty m .auto ((decDataOf ctx d).getD [])
+      | some (m, .custom) => PyVal.obj ty m .custom (match decDataC ctx d with | some (.dict kvs) => kvs | _ => [])) := by
   unfold dec
   rw [ht]
   split
@@ -113,7 +114,18 @@ theorem codec_roundtrip (ctx : Registry) : ∀ (v : PyVal), Supported ctx v = tr
       obtain ⟨⟨⟨h1, h2⟩, h2d⟩, h4⟩ := h
       simp only [enc, norm]
       rw [dec_typed ctx _ c (by simp [List.lookup]) h2 h2d, h1]
-      simp [decDataOf, roundtrip_kvs ctx a h4]
+      -- the record the class handed out travels as a dict of its own (wrapped when it uses the reserved key)
+      have hrec : dec ctx (if a.any (·.1 == "_type") then JVal.obj [("_type", .str "dict"), ("_data", .obj (encKVs a))] else .obj (encKVs a))
+          = PyVal.dict (normKVs a) := by
+        by_cases hk : a.any (·.1 == "_type") = true
+        · rw [if_pos hk, dec_wrapped ctx _ (by simp [List.lookup])]
+          simp [decDataOf, roundtrip_kvs ctx a h4]
+        · rw [if_neg hk]
+          simp only [Bool.not_eq_true] at hk
+          simp only [dec]
+          rw [lookup_encKVs_none "_type" a hk]
+          simp only [roundtrip_kvs ctx a h4]
+      simp [decDataC, hrec]
 
 theorem roundtrip_list (ctx : Registry) : ∀ (l : List PyVal), supList ctx l = true →
     decList ctx (encList l) = normList l
@@ -132,6 +144,11 @@ end
 
 /-- the point the earlier statement of the theorem had to exclude (a dict that uses the reserved key, holding another) -/
 example : Supported [] (.dict [("_type", .str "weapon"), ("dmg", .int 3), ("in", .list [.dict [("_type", .int 1), ("_data", .none)]])]) = true := by
+  decide
+
+/-- ... and a custom-serialised object whose own record uses the reserved keys -/
+example : Supported [("Relic", ("game", .custom))]
+    (.obj "Relic" "game" .custom [("_type", .str "weapon"), ("power", .int 3), ("_data", .dict [("_type", .none)])]) = true := by
   decide
 
 /-- non-vacuity: a concrete nested value (object in a dict in a list in an object's data) is supported -/
